@@ -27,7 +27,14 @@ def load_findings(pid):
         data = json.load(open(FINDINGS))
     except FileNotFoundError:
         return []
-    return [f for f in data.get("findings", []) if f.get("property") == pid]
+    out = [f for f in data.get("findings", []) if f.get("property") == pid]
+    # staging area used while a check is being developed; merged into known_findings.json on integration
+    try:
+        extra = json.load(open(os.path.join(VERIF, "findings.d", pid + ".json")))
+        out += [f for f in extra.get("findings", []) if f.get("property") == pid]
+    except (FileNotFoundError, ValueError):
+        pass
+    return out
 
 
 class InfraError(Exception):
